@@ -15,7 +15,7 @@ def run():
                   vlib.model_check("SemRefine", "SemRefine.cfg", timeout=600))
     rr2 = vlib.model_check("SemRefine", "SemRefine_dev.cfg", expect_ok=False, timeout=600)
     chk.add_model("SemRefine/variant timed_take_without_recheck (must not refine)", rr2, note="violated: %s" % rr2["violated"])
-    for cfg in ("SemImpl_dev_loop.cfg", "SemImpl_dev_timed.cfg", "SemImpl_dev_blind.cfg"):
+    for cfg in ("SemImpl_dev_loop.cfg", "SemImpl_dev_timed.cfg", "SemImpl_dev_blind.cfg", "SemImpl_dev_front.cfg"):
         rr = vlib.model_check("SemImplMC", cfg, expect_ok=False, timeout=600)
         chk.add_model("SemImpl/variant %s (must violate)" % cfg[12:-4], rr, note="violated: %s" % rr["violated"])
     chk.add_model("SlidingSemImpl (wait / signal with max, notify loop; signals arriving in decreasing order)",
